@@ -8,7 +8,7 @@ from . import model
 
 def chance(n):
     """True with probability 1/n"""
-    return st.sampled_from([True] + [False] * (n - 1))
+    return st.sampled_from([False] * (n - 1) + [True])
 
 
 # ------------------------------------------------------------------ code points / strings
